@@ -1536,16 +1536,20 @@ def primitive_narrowphase(m: Model, d: Data, ctx: CollisionContext, collision_ta
   # TODO(team): keep the overhead of this small - not launching anything
   # for pair types without collisions, as well as updating the launch dimensions.
 
+  # build the list for this model: a module-level list that only grows would make the result
+  # depend on which models ran earlier in the process (e.g. box-box with NATIVECCD disabled)
+  primitive_collision_types = []
+  primitive_collision_func = []
   for types, func in _PRIMITIVE_COLLISIONS.items():
     if types not in collision_table:
       continue
     idx = upper_trid_index(len(GeomType), types[0].value, types[1].value)
-    if m.geom_pair_type_count[idx] and types not in _PRIMITIVE_COLLISION_TYPES:
-      _PRIMITIVE_COLLISION_TYPES.append(types)
-      _PRIMITIVE_COLLISION_FUNC.append(func)
+    if m.geom_pair_type_count[idx]:
+      primitive_collision_types.append(types)
+      primitive_collision_func.append(func)
 
   wp.launch(
-    _primitive_narrowphase(_PRIMITIVE_COLLISION_TYPES, _PRIMITIVE_COLLISION_FUNC),
+    _primitive_narrowphase(primitive_collision_types, primitive_collision_func),
     dim=d.naconmax,
     inputs=[
       m.geom_type,
